@@ -11,116 +11,12 @@ import (
 	"fmt"
 	"strings"
 
-	"github.com/rivo/uniseg"
 	"verifharness/cmd/C05/emuh"
 	"verifharness/gen"
 	"verifharness/hx"
 )
 
 func main() { hx.Main("C06", run) }
-
-func pr(s string) string { return fmt.Sprintf("print %s %d", hx.Hex(s), uniseg.StringWidth(s)) }
-func csi(final string, params string) string {
-	if params == "" {
-		params = "-"
-	}
-	return "csi " + hx.Hex(final) + " " + params
-}
-
-// alphabet returns the op alphabet for a w x h screen; reduced = the state-changing core.
-func alphabet(w, h int, reduced bool) []string {
-	var a []string
-	add := func(s ...string) { a = append(a, s...) }
-	add(pr("a"), pr("世"), "c0 13", "c0 10", "esc "+hx.Hex("D"), "esc "+hx.Hex("E"), "esc "+hx.Hex("M"),
-		"esc "+hx.Hex("7"), "esc "+hx.Hex("8"), csi("?h", "1049"), csi("?l", "1049"))
-	add(csi("H", ""), csi("H", "1;1"), csi("H", "2;2"), csi("H", "0;0"), csi("H", fmt.Sprintf("%d;%d", h, w)),
-		csi("H", fmt.Sprintf("%d;%d", h+1, w+1)), csi("f", "2"))
-	pset := func(size int) []string {
-		return []string{"", "0", "1", "2", fmt.Sprint(size - 1), fmt.Sprint(size), fmt.Sprint(size + 1)}
-	}
-	small := func(size int) []string { return []string{"", "1", "2", fmt.Sprint(size), fmt.Sprint(size + 1)} }
-	if reduced {
-		pset = func(size int) []string { return []string{"", fmt.Sprint(size)} }
-		small = func(size int) []string { return []string{"2"} }
-	}
-	for _, p := range small(w) {
-		add(csi("G", p))
-	}
-	for _, p := range small(h) {
-		add(csi("d", p))
-	}
-	for _, f := range []string{"A", "B", "E", "F"} {
-		for _, p := range small(h) {
-			add(csi(f, p))
-		}
-	}
-	for _, f := range []string{"C", "D"} {
-		for _, p := range small(w) {
-			add(csi(f, p))
-		}
-	}
-	for _, p := range []string{"", "0", "1", "2"} {
-		add(csi("K", p), csi("J", p))
-	}
-	for _, f := range []string{"X", "@", "P"} {
-		for _, p := range pset(w) {
-			add(csi(f, p))
-		}
-	}
-	for _, f := range []string{"L", "M", "S", "T"} {
-		for _, p := range pset(h) {
-			add(csi(f, p))
-		}
-	}
-	add(csi("r", ""), csi("r", "1;2"), csi("r", "2;3"), csi("r", "2;2"), csi("r", fmt.Sprintf("1;%d", h+1)),
-		csi("r", fmt.Sprintf("2;%d", h+3)), csi("r", "0;0"), csi("r", "2"))
-	add(csi("m", "41"), csi("m", "0"))
-	// de-duplicate (tiny sizes make some parameters coincide)
-	seen := map[string]bool{}
-	var out []string
-	for _, s := range a {
-		if !seen[s] {
-			seen[s] = true
-			out = append(out, s)
-		}
-	}
-	return out
-}
-
-// prefixes: setup sequences executed silently.
-func prefixes(w, h int) [][]string {
-	letters := "abcdefghijklmnopqrstuvwxyz"
-	var fill []string
-	for i := 0; i < w*h; i++ {
-		fill = append(fill, pr(string(letters[i%26])))
-	}
-	var fillRow1 []string
-	for i := 0; i < w; i++ {
-		fillRow1 = append(fillRow1, pr(string(letters[i%26])))
-	}
-	var wide []string
-	for i := 0; i+1 < w; i += 2 {
-		wide = append(wide, pr("世"))
-	}
-	p := [][]string{
-		{},
-		append(append([]string{}, fill...), csi("H", "2;2"), csi("m", "44")),
-		append(append([]string{}, fill...), csi("r", fmt.Sprintf("2;%d", max(3, h))), csi("H", "2;1"), csi("m", "42")),
-		append(append([]string{}, wide...), csi("H", "1;2"), csi("m", "43")),
-		append([]string{csi("m", "45")}, fillRow1...), // ends in the pending-wrap state
-	}
-	if h >= 3 {
-		p = append(p, append(append([]string{}, fill...), csi("r", fmt.Sprintf("1;%d", h-1)), csi("H", fmt.Sprintf("%d;2", h)), csi("m", "46")))
-	}
-	return p
-}
-
-func max(a, b int) int {
-	if a > b {
-		return a
-	}
-	return b
-}
 
 type runner struct {
 	r    *hx.Run
@@ -169,7 +65,7 @@ func randomOp(r *gen.Rng, w, h int) string {
 	}
 	switch k := r.Intn(100); {
 	case k < 38:
-		return pr(gen.Pick(r, []string{"a", "b", "c", "x", "y", "z", " ", "é", "世", "界", "🔥", "a", "b"}))
+		return emuh.Pr(gen.Pick(r, []string{"a", "b", "c", "x", "y", "z", " ", "é", "世", "界", "🔥", "a", "b"}))
 	case k < 44:
 		return "c0 13"
 	case k < 50:
@@ -177,32 +73,32 @@ func randomOp(r *gen.Rng, w, h int) string {
 	case k < 56:
 		return "esc " + hx.Hex(gen.Pick(r, []string{"D", "E", "M", "7", "8"}))
 	case k < 58:
-		return csi(gen.Pick(r, []string{"?h", "?l"}), "1049")
+		return emuh.Csi(gen.Pick(r, []string{"?h", "?l"}), "1049")
 	case k < 64:
-		return csi(gen.Pick(r, []string{"H", "f"}), gen.Pick(r, []string{"", par(h), par(h) + ";" + par(w), ";" + par(w)}))
+		return emuh.Csi(gen.Pick(r, []string{"H", "f"}), gen.Pick(r, []string{"", par(h), par(h) + ";" + par(w), ";" + par(w)}))
 	case k < 68:
-		return csi(gen.Pick(r, []string{"G", "`"}), par(w))
+		return emuh.Csi(gen.Pick(r, []string{"G", "`"}), par(w))
 	case k < 70:
-		return csi("d", par(h))
+		return emuh.Csi("d", par(h))
 	case k < 76:
-		return csi(gen.Pick(r, []string{"A", "B", "E", "F"}), par(h))
+		return emuh.Csi(gen.Pick(r, []string{"A", "B", "E", "F"}), par(h))
 	case k < 80:
-		return csi(gen.Pick(r, []string{"C", "D"}), par(w))
+		return emuh.Csi(gen.Pick(r, []string{"C", "D"}), par(w))
 	case k < 84:
-		return csi(gen.Pick(r, []string{"K", "J"}), gen.Pick(r, []string{"", "0", "1", "2"}))
+		return emuh.Csi(gen.Pick(r, []string{"K", "J"}), gen.Pick(r, []string{"", "0", "1", "2"}))
 	case k < 89:
-		return csi(gen.Pick(r, []string{"X", "@", "P"}), par(w))
+		return emuh.Csi(gen.Pick(r, []string{"X", "@", "P"}), par(w))
 	case k < 94:
-		return csi(gen.Pick(r, []string{"L", "M", "S", "T"}), par(h))
+		return emuh.Csi(gen.Pick(r, []string{"L", "M", "S", "T"}), par(h))
 	case k < 96:
-		return csi("r", gen.Pick(r, []string{"", par(h) + ";" + par(h), fmt.Sprintf("%d;%d", r.Range(1, h), r.Range(1, h+2)), par(h)}))
+		return emuh.Csi("r", gen.Pick(r, []string{"", par(h) + ";" + par(h), fmt.Sprintf("%d;%d", r.Range(1, h), r.Range(1, h+2)), par(h)}))
 	default:
-		return csi("m", gen.Pick(r, sgrVocab))
+		return emuh.Csi("m", gen.Pick(r, sgrVocab))
 	}
 }
 
 func fixParams(op string) string {
-	// csi() helper turns "" into "-"; parameters like ";3" (empty first) are written as 0
+	// emuh.Csi() helper turns "" into "-"; parameters like ";3" (empty first) are written as 0
 	f := strings.Fields(op)
 	if len(f) == 3 && f[0] == "csi" && f[2] != "-" {
 		parts := strings.Split(f[2], ";")
@@ -242,9 +138,9 @@ func run(r *hx.Run) error {
 	n := 0
 	for _, wh := range screens {
 		w, h := wh[0], wh[1]
-		full := alphabet(w, h, false)
-		red := alphabet(w, h, true)
-		for pi, pre := range prefixes(w, h) {
+		full := emuh.Alphabet(w, h, false)
+		red := emuh.Alphabet(w, h, true)
+		for pi, pre := range emuh.Prefixes(w, h) {
 			// length 1: full alphabet
 			for _, a := range full {
 				x.seqCase(fmt.Sprintf("x1-%d", n), w, h, pre, []string{fixParams(a)})
